@@ -952,7 +952,21 @@ impl Property for C31 {
     fn post_batch(&self, seed: u64, tier: Tier) -> Result<(J, Vec<(Violation, J)>), String> {
         use crate::core::miri;
         if tier == Tier::Quick {
-            return Ok((json!({"miri": "thorough tier only"}), vec![]));
+            // a small slice of the Miri tier: the window inside a lazy static's initialisation is
+            // invisible to the baton scheduler. An even workload seed makes every thread's first
+            // validation the conflict document. If Miri cannot be started at all, the quick tier
+            // records that and goes on (the thorough tier treats it as a harness error).
+            let job = miri::Job {
+                mode: "c31-free",
+                workload_seed: (mix(&[seed, 0x4d33]) % 500_000) * 2,
+                workload_count: 1,
+                miri_seeds: 8,
+                flags: miri::FLAGS_PARSING,
+            };
+            return match miri::run_jobs(vec![job], 1) {
+                Ok(r) => Ok(r),
+                Err(e) => Ok((json!({"miri": format!("not run in this quick tier: {e}")}), vec![])),
+            };
         }
         let base = mix(&[seed, 0x4d32]) % 1_000_000;
         let mut jobs = vec![];
